@@ -1,5 +1,751 @@
-//! C07 harness (stub: not implemented yet).
+//! C07 — issue and patch actions obey the authorization rules.
+//!
+//! Each case is a whole issue or patch history (`issue …` / `patch …`, syntax in
+//! `lean/HeartwoodModel/Driver/C07.lean` and `Driver/C08.lean`). The harness stores the ops as real change
+//! commits of a real COB in a real repository (arbitrary DAG, authors, identity documents per op,
+//! timestamps), evaluates with the real `radicle_cob::get` → `Issue::apply` / `Patch::apply`, and prints
+//! the projected final state plus, per applied entry, whether it was accepted. Facts the model takes as
+//! parameters (evaluation `order`, `anc` of merges) are computed by the real code.
+//!
+//! Oracle (the property statement on what the real code did): the state before and after every applied
+//! entry is compared; if the entry's author is not a delegate of the REAL document the entry refers to,
+//! then assignees, labels and merges must be unchanged; title and lifecycle must be unchanged unless the
+//! author is the object author; every comment / review / revision owned by somebody else must still be
+//! there with the same content (author, body versions, reply target; summary, verdict, labels;
+//! description) unless a container it lives in (revision, review) was redacted by that container's own
+//! author; nothing may appear in another author's name. A rejected entry must change nothing.
+
+#[path = "../../c08/src/inject.rs"]
+mod inject;
+mod issuerun;
+#[path = "../../c08/src/patchrun.rs"]
+mod patchrun;
+
+use std::collections::BTreeMap;
+
+use inject::*;
+use issuerun::{to_json, IAct, ICase, IOp};
+use patchrun::{doc_delegates, PAct, PCase, POp, FAKE_ID_BASE};
+use serde_json::Value;
+use verif_common::*;
+
+/// An owned item of a COB state: `path ↦ (owner, core, owners of the containers it lives in)`.
+type Items = BTreeMap<String, (String, String, Vec<(String, String)>)>;
+
+fn comment_items(prefix: &str, thread: &Value, containers: &[(String, String)], out: &mut Items) {
+    if let Some(m) = thread["comments"].as_object() {
+        for (id, c) in m {
+            if c.is_null() {
+                continue;
+            }
+            let owner = c["author"].as_str().unwrap_or("?").to_string();
+            let edits: Vec<String> = c["edits"]
+                .as_array()
+                .map(|a| a.iter().map(|e| format!("{}:{}", e["author"], e["body"])).collect())
+                .unwrap_or_default();
+            let core = format!("{owner}|{}|{}", edits.join(","), c.get("replyTo").map(|r| r.to_string()).unwrap_or_default());
+            out.insert(format!("{prefix}c:{id}"), (owner, core, containers.to_vec()));
+        }
+    }
+}
+
+fn issue_items(v: &Value) -> Items {
+    let mut out = Items::new();
+    comment_items("", &v["thread"], &[], &mut out);
+    out
+}
+
+fn author_of(v: &Value) -> String {
+    // `Author` serialises as {"id": "did:key:…"}; comment authors as "z6Mk…"
+    let s = match v {
+        Value::String(s) => s.clone(),
+        Value::Object(o) => o.get("id").and_then(|x| x.as_str()).unwrap_or("?").to_string(),
+        _ => "?".into(),
+    };
+    s.strip_prefix("did:key:").unwrap_or(&s).to_string()
+}
+
+fn patch_items(v: &Value) -> Items {
+    let mut out = Items::new();
+    if let Some(m) = v["revisions"].as_object() {
+        for (rid, r) in m {
+            if r.is_null() {
+                continue;
+            }
+            let rowner = author_of(&r["author"]);
+            let desc: Vec<String> = r["description"]
+                .as_array()
+                .map(|a| a.iter().map(|e| format!("{}:{}", e["author"], e["body"])).collect())
+                .unwrap_or_default();
+            let rpath = format!("rev:{rid}");
+            out.insert(rpath.clone(), (rowner.clone(), format!("{rowner}|{}", desc.join(",")), vec![]));
+            let rcont = vec![(rpath.clone(), rowner.clone())];
+            comment_items(&format!("{rpath}/disc/"), &r["discussion"], &rcont, &mut out);
+            if let Some(rm) = r["reviews"].as_object() {
+                for (k, rv) in rm {
+                    let vowner = author_of(&rv["author"]);
+                    let vpath = format!("{rpath}/review:{k}");
+                    let core = format!("{}|{vowner}|{}|{}|{}", rv["id"], rv["summary"], rv["verdict"], rv["labels"]);
+                    out.insert(vpath.clone(), (vowner.clone(), core, rcont.clone()));
+                    let mut vcont = rcont.clone();
+                    vcont.push((vpath.clone(), vowner.clone()));
+                    comment_items(&format!("{vpath}/"), &rv["comments"], &vcont, &mut out);
+                }
+            }
+        }
+    }
+    out
+}
+
+/// The ownership rule: what an applied op by the non-delegate `actor` may do to owned items.
+fn check_items(before: &Items, after: &Items, actor: &str, op: usize, o: &mut Outcome) {
+    for (path, (owner, core, containers)) in before {
+        if owner == actor {
+            continue;
+        }
+        match after.get(path) {
+            Some((_, core2, _)) => {
+                if core2 != core {
+                    o.violations.push((
+                        "unauth-item-changed".into(),
+                        format!("op {op} by non-delegate changed {path} owned by somebody else"),
+                    ));
+                }
+            }
+            None => {
+                // allowed only if a container owned by the actor disappeared
+                let excused = containers.iter().any(|(cp, cowner)| cowner == actor && !after.contains_key(cp));
+                if !excused {
+                    o.violations.push((
+                        "unauth-item-removed".into(),
+                        format!("op {op} by non-delegate removed {path} owned by somebody else"),
+                    ));
+                }
+            }
+        }
+    }
+    for (path, (owner, _, _)) in after {
+        if !before.contains_key(path) && owner != actor {
+            o.violations.push((
+                "unauth-item-forged".into(),
+                format!("op {op} created {path} in the name of somebody else"),
+            ));
+        }
+    }
+}
+
+fn run_issue(w: &mut World, input: &str) -> (String, Outcome) {
+    let Some(mut case) = issuerun::parse(input) else {
+        return (input.to_string(), Outcome::new("bad-case").trivial().tag("bad-case"));
+    };
+    let run = match issuerun::run(w, &mut case) {
+        Ok(r) => r,
+        Err(e) => return (input.to_string(), Outcome::new(format!("harness-error:{e}")).trivial().tag("harness-error")),
+    };
+    let text = issuerun::render(&case);
+    let mut o = Outcome::new(run.output.clone());
+    o.tags = run.tags.clone();
+    o.tags.push("issue".into());
+    let mut unauth_applied = 0;
+    for s in &run.steps {
+        let op = &case.ops[s.op];
+        if !s.ok {
+            o.tags.push("op-rejected".into());
+            if s.before != s.after {
+                o.violations.push(("rejected-op-changed-state".into(), format!("op {} was rejected but changed the issue", s.op)));
+            }
+            continue;
+        }
+        let Some(d) = op.doc else { continue };
+        let actor_key = w.key(op.author).to_string();
+        let is_delegate = doc_delegates(w, &run.docs[d]).contains(&op.author);
+        o.tags.push(if is_delegate { "applied-by-delegate" } else { "applied-by-non-delegate" }.into());
+        if is_delegate {
+            continue;
+        }
+        unauth_applied += 1;
+        let (b, a) = (to_json(&s.before), to_json(&s.after));
+        if b["assignees"] != a["assignees"] || b["labels"] != a["labels"] {
+            o.violations.push((
+                "unauth-assign-label".into(),
+                format!("op {} by non-delegate {} changed assignees/labels", s.op, op.author),
+            ));
+        }
+        let is_author = s.before.author().id().as_key().to_string() == actor_key;
+        o.tags.push(if is_author { "non-delegate-author" } else { "stranger" }.into());
+        if !is_author && (b["title"] != a["title"] || b["state"] != a["state"]) {
+            o.violations.push((
+                "unauth-title-lifecycle".into(),
+                format!("op {} by {} (neither delegate nor author) changed title/state", s.op, op.author),
+            ));
+        }
+        check_items(&issue_items(&b), &issue_items(&a), &actor_key, s.op, &mut o);
+        for act in &op.actions {
+            match act {
+                IAct::Assign(_) | IAct::Label(_) => o.tags.push("noop-assign-label-by-non-delegate".into()),
+                IAct::CommentEdit(..) | IAct::CommentRedact(_) => o.tags.push("comment-edit-redact-by-non-delegate".into()),
+                _ => {}
+            }
+        }
+    }
+    if let Some(last) = &run.last {
+        let v = to_json(last);
+        if v["thread"]["comments"].as_object().map(|m| m.values().any(|c| c.is_null())).unwrap_or(false) {
+            o.tags.push("has-redacted-comment".into());
+        }
+    }
+    if case.docs.len() > 1 {
+        o.tags.push("multi-doc".into());
+    }
+    o.nontrivial = run.init.is_some() && unauth_applied > 0;
+    o.tags.sort();
+    o.tags.dedup();
+    (text, o)
+}
+
+fn run_patch(w: &mut World, input: &str) -> (String, Outcome) {
+    let Some(mut case) = patchrun::parse(input) else {
+        return (input.to_string(), Outcome::new("bad-case").trivial().tag("bad-case"));
+    };
+    let run = match patchrun::run(w, &mut case) {
+        Ok(r) => r,
+        Err(e) => return (input.to_string(), Outcome::new(format!("harness-error:{e}")).trivial().tag("harness-error")),
+    };
+    let text = patchrun::render(&case);
+    let mut o = Outcome::new(run.output.clone());
+    o.tags = run.tags.clone();
+    o.tags.push("patch".into());
+    let mut unauth_applied = 0;
+    for s in &run.steps {
+        let op = &case.ops[s.op];
+        if !s.ok {
+            o.tags.push("op-rejected".into());
+            if s.before != s.after {
+                o.violations.push(("rejected-op-changed-state".into(), format!("op {} was rejected but changed the patch", s.op)));
+            }
+            continue;
+        }
+        let Some(d) = op.doc else { continue };
+        let actor_key = w.key(op.author).to_string();
+        let is_delegate = doc_delegates(w, &run.docs[d]).contains(&op.author);
+        o.tags.push(if is_delegate { "applied-by-delegate" } else { "applied-by-non-delegate" }.into());
+        if is_delegate {
+            continue;
+        }
+        unauth_applied += 1;
+        let b = serde_json::to_value(&s.before).unwrap_or(Value::Null);
+        let a = serde_json::to_value(&s.after).unwrap_or(Value::Null);
+        if b["assignees"] != a["assignees"] || b["labels"] != a["labels"] || b["merges"] != a["merges"] {
+            o.violations.push((
+                "unauth-assign-label-merge".into(),
+                format!("op {} by non-delegate {} changed assignees/labels/merges", s.op, op.author),
+            ));
+        }
+        let is_author = s.before.author().id().as_key().to_string() == actor_key;
+        o.tags.push(if is_author { "non-delegate-author" } else { "stranger" }.into());
+        if !is_author && (b["title"] != a["title"] || b["state"] != a["state"] || b["target"] != a["target"]) {
+            o.violations.push((
+                "unauth-title-lifecycle".into(),
+                format!("op {} by {} (neither delegate nor author) changed title/state", s.op, op.author),
+            ));
+        }
+        check_items(&patch_items(&b), &patch_items(&a), &actor_key, s.op, &mut o);
+        for act in &op.actions {
+            let t = match act {
+                PAct::Label(_) => "noop-label-by-non-delegate",
+                PAct::ReviewEdit { .. } | PAct::ReviewRedact(_) => "review-edit-redact-by-non-delegate",
+                PAct::ReviewCommentEdit { .. } | PAct::ReviewCommentRedact { .. } => "review-comment-edit-redact-by-non-delegate",
+                PAct::ReviewCommentResolve { .. } | PAct::ReviewCommentUnresolve { .. } => "resolve-by-non-delegate",
+                PAct::RevisionEdit { .. } | PAct::RevisionRedact(_) => "revision-edit-redact-by-non-delegate",
+                PAct::RevisionCommentEdit { .. } | PAct::RevisionCommentRedact { .. } => "revision-comment-edit-redact-by-non-delegate",
+                _ => continue,
+            };
+            o.tags.push(t.into());
+        }
+    }
+    if let Some(last) = &run.last {
+        let v = serde_json::to_value(last).unwrap_or(Value::Null);
+        if v["revisions"].as_object().map(|m| m.values().any(|c| c.is_null())).unwrap_or(false) {
+            o.tags.push("has-redacted-revision".into());
+        }
+        if v["reviews"].as_object().map(|m| m.values().any(|c| c.is_null())).unwrap_or(false) {
+            o.tags.push("has-redacted-review".into());
+        }
+    }
+    if case.docs.len() > 1 {
+        o.tags.push("multi-doc".into());
+    }
+    o.nontrivial = run.init.is_some() && unauth_applied > 0;
+    o.tags.sort();
+    o.tags.dedup();
+    (text, o)
+}
+
+fn elaborate(w: &mut World, input: &str) -> (String, Outcome) {
+    if input.starts_with("issue ") {
+        run_issue(w, input)
+    } else if input.starts_with("patch ") {
+        run_patch(w, input)
+    } else {
+        (input.to_string(), Outcome::new("bad-case").trivial().tag("bad-case"))
+    }
+}
+
+fn gen_docs(rng: &mut Rng) -> Vec<(Vec<usize>, usize)> {
+    let n_docs = if rng.chance(1, 3) { 2 } else { 1 };
+    (0..n_docs)
+        .map(|_| {
+            let n = rng.range(1, 3) as usize;
+            let mut ds: Vec<usize> = vec![];
+            while ds.len() < n {
+                let d = rng.below(4) as usize;
+                if !ds.contains(&d) {
+                    ds.push(d);
+                }
+            }
+            let t = rng.range(1, n as u64) as usize;
+            (ds, t)
+        })
+        .collect()
+}
+
+fn small_set(rng: &mut Rng, max: u64) -> Vec<u64> {
+    match rng.below(4) {
+        0 => vec![],
+        1 => vec![1],
+        2 => vec![1, 2],
+        _ => vec![rng.range(1, max)],
+    }
+}
+
+fn pick_id(rng: &mut Rng, known: &[u64]) -> u64 {
+    if known.is_empty() || rng.chance(1, 20) {
+        FAKE_ID_BASE + rng.below(3)
+    } else {
+        *rng.pick(known)
+    }
+}
+
+/// A known item: id (= index of the op that created it), owner, and the id of its container if any.
+#[derive(Clone, Copy)]
+struct Item {
+    id: u64,
+    owner: usize,
+    parent: u64,
+}
+
+/// Pick an item visible from the new op (created by one of its ancestors): mostly one owned by `author`
+/// when `own` is set. `None` if there is none.
+fn pick_item(rng: &mut Rng, items: &[Item], anc: &std::collections::BTreeSet<usize>, author: usize, own: bool) -> Option<Item> {
+    let visible: Vec<Item> = items.iter().filter(|i| anc.contains(&(i.id as usize))).cloned().collect();
+    if visible.is_empty() {
+        return None;
+    }
+    let mine: Vec<Item> = visible.iter().filter(|i| i.owner == author).cloned().collect();
+    if own && !mine.is_empty() && rng.chance(4, 5) {
+        Some(*rng.pick(&mine))
+    } else {
+        Some(*rng.pick(&visible))
+    }
+}
+
+fn gen_issue(rng: &mut Rng) -> String {
+    let docs = gen_docs(rng);
+    let n_docs = docs.len();
+    let root_author = if rng.bool() { *rng.pick(&docs[0].0) } else { rng.below(N_ACTORS as u64) as usize };
+    let root_doc = if docs[0].0.contains(&root_author) { 0 } else { rng.below(n_docs as u64) as usize };
+    let root_is_delegate = docs[root_doc].0.contains(&root_author);
+    let mut root_actions = vec![IAct::Comment(if rng.chance(1, 40) { 0 } else { rng.range(1, 9) }, None), IAct::Edit(rng.range(1, 9), 0)];
+    if rng.chance(1, 5) {
+        root_actions.push(IAct::Label(if root_is_delegate || rng.chance(1, 8) { small_set(rng, 3) } else { vec![] }));
+    }
+    if rng.chance(1, 8) {
+        root_actions.push(IAct::Assign(if root_is_delegate || rng.chance(1, 8) { small_set(rng, 3) } else { vec![] }));
+    }
+    let n = rng.range(2, 12) as usize;
+    let mut dag = DagGen::new(1000 + rng.below(20));
+    let mut ops = vec![IOp { author: root_author, doc: Some(root_doc), ts: 1000, tips: vec![], actions: root_actions }];
+    let mut comments: Vec<Item> = vec![Item { id: 0, owner: root_author, parent: 0 }];
+    for i in 1..=n {
+        let (tips, ts, anc) = dag.next(rng);
+        let mut tries = 0;
+        // mostly valid ops: an op the generator expects to be rejected is kept with probability 1/3
+        let (author, doc, actions, makes_comment, suspect) = loop {
+        let author = rng.below(N_ACTORS as u64) as usize;
+        let mut suspect = false;
+        let doc = if rng.chance(1, 60) {
+            suspect = true;
+            None
+        } else {
+            Some(rng.below(n_docs as u64) as usize)
+        };
+        let is_delegate = doc.map(|d| docs[d].0.contains(&author)).unwrap_or(false);
+        let privileged = is_delegate || author == root_author;
+        let n_act = if rng.chance(1, 7) { 2 } else { 1 };
+        let mut actions = vec![];
+        let mut makes_comment = false;
+        for _ in 0..n_act {
+            let mut k = rng.below(16);
+            if k <= 6 && !privileged && rng.chance(1, 2) {
+                k = rng.range(7, 15);
+            }
+            let body = |rng: &mut Rng, suspect: &mut bool| {
+                if rng.chance(1, 40) {
+                    *suspect = true;
+                    0
+                } else {
+                    rng.range(1, 9)
+                }
+            };
+            let a = match k {
+                0 | 1 => {
+                    let v = small_set(rng, 3);
+                    if !is_delegate {
+                        suspect = true; // denied unless it happens to be a no-op
+                    }
+                    IAct::Assign(v)
+                }
+                2 | 3 => {
+                    let v = small_set(rng, 3);
+                    if !is_delegate {
+                        suspect = true;
+                    }
+                    IAct::Label(v)
+                }
+                4 => {
+                    let kind = if rng.chance(1, 8) { rng.range(1, 2) } else { 0 };
+                    if kind != 0 || !privileged {
+                        suspect = true;
+                    }
+                    IAct::Edit(rng.range(1, 9), kind)
+                }
+                5 | 6 => {
+                    if !privileged {
+                        suspect = true;
+                    }
+                    IAct::Lifecycle(*rng.pick(&['o', 's', 'c']))
+                }
+                7..=9 => {
+                    makes_comment = true;
+                    let reply = if rng.chance(1, 10) {
+                        None
+                    } else if rng.chance(1, 30) {
+                        suspect = true;
+                        Some(FAKE_ID_BASE + rng.below(3))
+                    } else {
+                        pick_item(rng, &comments, &anc, author, false).map(|c| c.id)
+                    };
+                    IAct::Comment(body(rng, &mut suspect), reply)
+                }
+                10..=14 => {
+                    let target = if rng.chance(1, 30) {
+                        None
+                    } else if rng.chance(1, 12) {
+                        // any comment, visible or not (concurrent branches: Missing / Unknown outcomes)
+                        Some(*rng.pick(&comments))
+                    } else {
+                        pick_item(rng, &comments, &anc, author, !is_delegate)
+                    };
+                    let (id, owner) = match target {
+                        Some(c) => {
+                            if !anc.contains(&(c.id as usize)) {
+                                suspect = true;
+                            }
+                            (c.id, Some(c.owner))
+                        }
+                        None => {
+                            suspect = true;
+                            (FAKE_ID_BASE + rng.below(3), None)
+                        }
+                    };
+                    if !is_delegate && owner != Some(author) {
+                        suspect = true;
+                    }
+                    if k <= 12 {
+                        IAct::CommentEdit(id, body(rng, &mut suspect))
+                    } else {
+                        if id == 0 {
+                            suspect = true;
+                        }
+                        IAct::CommentRedact(id)
+                    }
+                }
+                _ => match pick_item(rng, &comments, &anc, author, false) {
+                    Some(c) => IAct::CommentReact(c.id),
+                    None => {
+                        suspect = true;
+                        IAct::CommentReact(FAKE_ID_BASE)
+                    }
+                },
+            };
+            actions.push(a);
+        }
+        tries += 1;
+        if !suspect || tries >= 4 || rng.chance(1, 3) {
+            break (author, doc, actions, makes_comment, suspect);
+        }
+        };
+        if makes_comment {
+            comments.push(Item { id: i as u64, owner: author, parent: 0 });
+        }
+        dag.push(&tips, anc, suspect);
+        ops.push(IOp { author, doc, ts, tips, actions });
+    }
+    issuerun::render(&ICase { docs, order: vec![], ops })
+}
+
+fn gen_patch(rng: &mut Rng) -> String {
+    let docs = gen_docs(rng);
+    let n_docs = docs.len();
+    let heads: Vec<Option<usize>> = (0..N_ACTORS).map(|_| if rng.chance(1, 8) { None } else { Some(3) }).collect();
+    let root_author = if rng.bool() { *rng.pick(&docs[0].0) } else { rng.below(N_ACTORS as u64) as usize };
+    let root_doc = if docs[0].0.contains(&root_author) { 0 } else { rng.below(n_docs as u64) as usize };
+    let root_is_delegate = docs[root_doc].0.contains(&root_author);
+    let mut root_actions = vec![PAct::Revision(rng.range(1, 9)), PAct::Edit(rng.range(1, 9))];
+    if rng.chance(1, 6) {
+        root_actions.push(PAct::Lifecycle('d'));
+    }
+    if rng.chance(1, 8) {
+        root_actions.push(PAct::Label(if root_is_delegate || rng.chance(1, 8) { small_set(rng, 3) } else { vec![] }));
+    }
+    let n = rng.range(2, 14) as usize;
+    let mut dag = DagGen::new(1000 + rng.below(20));
+    let mut ops = vec![POp { author: root_author, doc: Some(root_doc), ts: 1000, tips: vec![], actions: root_actions }];
+    let mut revisions: Vec<Item> = vec![Item { id: 0, owner: root_author, parent: 0 }];
+    let mut reviews: Vec<Item> = vec![]; // parent = revision
+    let mut disc: Vec<Item> = vec![]; // parent = revision
+    let mut rcom: Vec<Item> = vec![]; // parent = review
+    for i in 1..=n {
+        let (tips, ts, anc) = dag.next(rng);
+        let mut tries = 0;
+        let (author, doc, actions, made, suspect) = loop {
+        let author = rng.below(N_ACTORS as u64) as usize;
+        let mut suspect = false;
+        let doc = if rng.chance(1, 60) {
+            suspect = true;
+            None
+        } else {
+            Some(rng.below(n_docs as u64) as usize)
+        };
+        let is_delegate = doc.map(|d| docs[d].0.contains(&author)).unwrap_or(false);
+        let is_author = author == root_author;
+        let own = !is_delegate;
+        let n_act = if rng.chance(1, 7) { 2 } else { 1 };
+        let mut actions = vec![];
+        let mut made: Vec<(u8, u64)> = vec![]; // (kind, parent)
+        for _ in 0..n_act {
+            let mut k = rng.below(30);
+            if !is_delegate && rng.chance(1, 2) && (matches!(k, 1 | 2 | 4 | 5) || (matches!(k, 0 | 3) && !is_author)) {
+                k = rng.range(6, 29);
+            }
+            let body = |rng: &mut Rng, suspect: &mut bool| {
+                if rng.chance(1, 40) {
+                    *suspect = true;
+                    0
+                } else {
+                    rng.range(1, 9)
+                }
+            };
+            // a target among `items`, mostly visible and (for owners) owned; `None` ⇒ nonexistent id
+            let target = |rng: &mut Rng, items: &[Item], own: bool, suspect: &mut bool| -> Item {
+                let t = if items.is_empty() || rng.chance(1, 30) {
+                    None
+                } else if rng.chance(1, 12) {
+                    Some(*rng.pick(items))
+                } else {
+                    pick_item(rng, items, &anc, author, own)
+                };
+                match t {
+                    Some(t) => {
+                        if !anc.contains(&(t.id as usize)) {
+                            *suspect = true;
+                        }
+                        t
+                    }
+                    None => {
+                        *suspect = true;
+                        Item { id: FAKE_ID_BASE + rng.below(3), owner: usize::MAX, parent: FAKE_ID_BASE }
+                    }
+                }
+            };
+            let a = match k {
+                0 => {
+                    if !(is_delegate || is_author) {
+                        suspect = true;
+                    }
+                    PAct::Edit(rng.range(1, 9))
+                }
+                1 | 2 => {
+                    if !is_delegate {
+                        suspect = true;
+                    }
+                    PAct::Label(small_set(rng, 3))
+                }
+                3 => {
+                    if !(is_delegate || is_author) {
+                        suspect = true;
+                    }
+                    PAct::Lifecycle(*rng.pick(&['o', 'd', 'a']))
+                }
+                4 => {
+                    if !is_delegate {
+                        suspect = true;
+                    }
+                    PAct::Assign(small_set(rng, 3))
+                }
+                5 => {
+                    if !is_delegate {
+                        suspect = true;
+                    }
+                    PAct::Merge { rev: target(rng, &revisions, false, &mut suspect).id, commit: rng.below(4), anc: '?' }
+                }
+                6..=8 => {
+                    let r = target(rng, &revisions, false, &mut suspect);
+                    made.push((1, r.id));
+                    PAct::Review {
+                        rev: r.id,
+                        summary: if rng.bool() { Some(rng.range(1, 5)) } else { None },
+                        verdict: *rng.pick(&['a', 'r', '-']),
+                        labels: small_set(rng, 3),
+                    }
+                }
+                9 | 10 => {
+                    let v = target(rng, &reviews, own, &mut suspect);
+                    if !is_delegate && v.owner != author {
+                        suspect = true;
+                    }
+                    let summary = if rng.chance(4, 5) { Some(rng.range(1, 5)) } else { None };
+                    let verdict = *rng.pick(&['a', 'r', '-']);
+                    if summary.is_none() && verdict == '-' {
+                        suspect = true;
+                    }
+                    PAct::ReviewEdit { review: v.id, summary, verdict, labels: small_set(rng, 3) }
+                }
+                11 => {
+                    let v = target(rng, &reviews, own, &mut suspect);
+                    if !is_delegate && v.owner != author {
+                        suspect = true;
+                    }
+                    PAct::ReviewRedact(v.id)
+                }
+                12..=14 => {
+                    let v = target(rng, &reviews, false, &mut suspect);
+                    made.push((3, v.id));
+                    let known: Vec<Item> = rcom.iter().filter(|c| c.parent == v.id).cloned().collect();
+                    let reply = if known.is_empty() || rng.bool() { None } else { pick_item(rng, &known, &anc, author, false).map(|c| c.id) };
+                    PAct::ReviewComment { review: v.id, body: body(rng, &mut suspect), reply }
+                }
+                15..=19 => {
+                    let c = target(rng, &rcom, own, &mut suspect);
+                    let (review, comment) = (c.parent, c.id);
+                    let sub = rng.below(5);
+                    if !is_delegate && c.owner != author && sub <= 2 {
+                        suspect = true;
+                    }
+                    match sub {
+                        0 | 1 => PAct::ReviewCommentEdit { review, comment, body: body(rng, &mut suspect) },
+                        2 => PAct::ReviewCommentRedact { review, comment },
+                        3 => PAct::ReviewCommentResolve { review, comment },
+                        _ => {
+                            if rng.bool() {
+                                PAct::ReviewCommentUnresolve { review, comment }
+                            } else {
+                                PAct::ReviewCommentReact { review, comment }
+                            }
+                        }
+                    }
+                }
+                20 | 21 => {
+                    made.push((0, 0));
+                    PAct::Revision(rng.range(1, 9))
+                }
+                22 => {
+                    let r = target(rng, &revisions, own, &mut suspect);
+                    if !is_delegate && r.owner != author {
+                        suspect = true;
+                    }
+                    PAct::RevisionEdit { rev: r.id, desc: rng.range(1, 9) }
+                }
+                23 => {
+                    let r = target(rng, &revisions, own, &mut suspect);
+                    if (!is_delegate && r.owner != author) || r.id == 0 {
+                        suspect = true;
+                    }
+                    PAct::RevisionRedact(r.id)
+                }
+                24 => PAct::RevisionReact(target(rng, &revisions, false, &mut suspect).id),
+                25 | 26 => {
+                    let r = target(rng, &revisions, false, &mut suspect);
+                    made.push((2, r.id));
+                    let known: Vec<Item> = disc.iter().filter(|c| c.parent == r.id).cloned().collect();
+                    let reply = if known.is_empty() || rng.bool() { None } else { pick_item(rng, &known, &anc, author, false).map(|c| c.id) };
+                    PAct::RevisionComment { rev: r.id, body: body(rng, &mut suspect), reply }
+                }
+                _ => {
+                    let c = target(rng, &disc, own, &mut suspect);
+                    let (rev, comment) = (c.parent, c.id);
+                    let sub = rng.below(4);
+                    if !is_delegate && c.owner != author && sub <= 2 {
+                        suspect = true;
+                    }
+                    match sub {
+                        0 | 1 => PAct::RevisionCommentEdit { rev, comment, body: body(rng, &mut suspect) },
+                        2 => PAct::RevisionCommentRedact { rev, comment },
+                        _ => PAct::RevisionCommentReact { rev, comment },
+                    }
+                }
+            };
+            actions.push(a);
+        }
+        tries += 1;
+        if !suspect || tries >= 4 || rng.chance(1, 3) {
+            break (author, doc, actions, made, suspect);
+        }
+        };
+        for (kind, parent) in made {
+            let it = Item { id: i as u64, owner: author, parent };
+            match kind {
+                0 => revisions.push(it),
+                1 => reviews.push(it),
+                2 => disc.push(it),
+                _ => rcom.push(it),
+            }
+        }
+        dag.push(&tips, anc, suspect);
+        ops.push(POp { author, doc, ts, tips, actions });
+    }
+    patchrun::render(&PCase { docs, heads, order: vec![], ops })
+}
+
 fn main() {
-    eprintln!("C07: harness not implemented");
-    std::process::exit(3);
+    let mut ctx = Ctx::from_args("C07");
+    let mut world = World::new();
+    let (fixed, is_replay) = ctx.fixed_inputs();
+    for i in fixed {
+        let (text, o) = elaborate(&mut world, &i);
+        ctx.count("corpus-or-replay");
+        ctx.record(&text, o);
+    }
+    if !is_replay {
+        let mut rng = ctx.rng();
+        for k in 0..ctx.size(600, 10_000) {
+            let input = if k % 2 == 0 { gen_issue(&mut rng) } else { gen_patch(&mut rng) };
+            let (text, o) = elaborate(&mut world, &input);
+            ctx.record(&text, o);
+            if world.used > 400 {
+                world = World::new();
+            }
+        }
+    }
+    ctx.finish(
+        "whole issue / patch histories on a real repository: 1-2 identity documents (1-3 delegates out of 4 \
+         of the 6 actors, each op refers to one of them or to none), every action kind of the two COB types \
+         (issues: assign/label incl. no-op sets, edit incl. invalid titles, lifecycle, comment, comment \
+         edit/redact/react incl. root, redacted and missing targets; patches: all 22 actions incl. reviews, \
+         review comments, resolve, revisions, redactions, merges), authors drawn uniformly from delegates, \
+         object authors, comment/review authors and strangers, multi-action ops, random DAG shapes with \
+         concurrent branches and equal / decreasing timestamps; non-trivial = valid root and at least one \
+         applied entry whose author is not a delegate of the document it refers to; distinct by input text",
+        false,
+    );
 }
